@@ -147,13 +147,14 @@ WIDTH_OPTS = [
 # the probe file of parts A and B and its reference renderer
 # ============================================================================
 
-# Operands are 12 columns: long enough that rustfmt's "avoid an orphan" rule for binary chains (first
-# operand shorter than tab_spaces - 8) never applies for tab_spaces <= 18, short enough that a wrapped
-# line fits into max_width = 60 at two indentation steps of 18.
-OPS_A = ["aaaaaaaaaaa%d" % i for i in range(1, 5)]  # line `let a = ...;` is 66 columns + indent: fits 100/130, not 60
-OPS_B = ["bbbbbbbbbbb%d" % i for i in range(1, 8)]  # line `let b = ...;` is 111 columns + indent: fits 130 only
+# Operands are 18 columns and tab_spaces is kept <= 7: rustfmt's "avoid an orphan" rule for binary chains
+# (which puts two operands on one line when the previous line is not wider than the continuation
+# indent, counting a hard tab as one column) then never applies, and a wrapped line fits max_width = 60.
+OPS_A = ["aaaaaaaaaaaaaaaaa%d" % i for i in range(1, 4)]  # line `let a = ...;` is 69 columns + indent: fits 100/130, not 60
+OPS_B = ["bbbbbbbbbbbbbbbbb%d" % i for i in range(1, 6)]  # line `let b = ...;` is 111 columns + indent: fits 130 only
+PROBE_BLANKS = 30
 PROBE_SRC = (
-    "use x::{a9, a10, a2};\nfn main()   {\nlet a = "
+    "use x::{a9, a10, a2};\n" + "\n" * PROBE_BLANKS + "fn main()   {\nlet a = "
     + "+".join(OPS_A)
     + ";\n            let b = "
     + " +  ".join(OPS_B)
@@ -177,6 +178,8 @@ def render_probe(eff):
     se = int(cli_val(eff["style_edition"]))
     names = ["a2", "a9", "a10"] if se >= 2024 else ["a10", "a2", "a9"]
     out = ["use x::{" + ", ".join(names) + "};"]
+    # blank_lines_upper_bound: at most that many of the blank lines between two items are kept
+    out += [""] * min(int(eff["blank_lines_upper_bound"]), PROBE_BLANKS)
     if cli_val(eff["brace_style"]) == "AlwaysNextLine":
         out += ["fn main()", "{"]
     else:
@@ -197,34 +200,39 @@ def render_probe(eff):
 # the precedence model of parts A and B
 # ============================================================================
 
-# Every possible config file ("slot") has a unique tab_spaces and a different subset of the other
-# probe options, so that (a) the file that won is identified, (b) merging of two files is visible.
-SLOTS = {
-    "d0P": {"tab_spaces": "2", "max_width": "60"},
-    "d0D": {"tab_spaces": "3", "hard_tabs": "true"},
-    "d1P": {"tab_spaces": "5", "brace_style": '"AlwaysNextLine"', "edition": '"2021"'},
-    "d1D": {"tab_spaces": "6", "style_edition": '"2024"'},
-    "d2P": {"tab_spaces": "7", "version": '"Two"', "max_width": "130"},
-    "d2D": {"tab_spaces": "8", "edition": '"2024"'},
-    "d3P": {"tab_spaces": "9", "hard_tabs": "true", "style_edition": '"2021"'},
-    "d3D": {"tab_spaces": "10", "max_width": "60", "version": '"Two"', "edition": '"2018"'},
-    "homeP": {"tab_spaces": "11", "brace_style": '"AlwaysNextLine"'},
-    "homeD": {"tab_spaces": "12", "edition": '"2024"', "version": '"One"'},
-    "xdgP": {"tab_spaces": "13", "style_edition": '"2024"', "max_width": "130"},
-    "xdgD": {"tab_spaces": "14", "hard_tabs": "true"},
-    "cpfile": {"tab_spaces": "15", "edition": '"2021"', "max_width": "60"},
-    "cpdirP": {"tab_spaces": "16", "version": '"Two"'},
-    "cpdirD": {"tab_spaces": "1", "style_edition": '"2018"', "brace_style": '"AlwaysNextLine"'},
-    "decoy": {"tab_spaces": "17", "max_width": "60", "hard_tabs": "true", "style_edition": '"2024"'},
+# Every possible config file ("slot") has a unique blank_lines_upper_bound (its identity, visible in
+# print-config and as the number of blank lines kept between two items of the probe) and a different
+# subset of the other probe options, so that (a) the file that won is identified, (b) merging of two
+# files is visible.  tab_spaces stays <= 7 wherever hard_tabs can be on (see OPS_A).
+_SLOT_EXTRAS = [
+    ("d0P", {"tab_spaces": "2", "max_width": "60"}),
+    ("d0D", {"tab_spaces": "3", "hard_tabs": "true"}),
+    ("d1P", {"tab_spaces": "5", "brace_style": '"AlwaysNextLine"', "edition": '"2021"'}),
+    ("d1D", {"tab_spaces": "6", "style_edition": '"2024"'}),
+    ("d2P", {"tab_spaces": "1", "version": '"Two"', "max_width": "130"}),
+    ("d2D", {"edition": '"2024"'}),
+    ("d3P", {"tab_spaces": "2", "hard_tabs": "true", "style_edition": '"2021"'}),
+    ("d3D", {"tab_spaces": "3", "max_width": "60", "version": '"Two"', "edition": '"2018"'}),
+    ("homeP", {"tab_spaces": "5", "brace_style": '"AlwaysNextLine"'}),
+    ("homeD", {"tab_spaces": "6", "edition": '"2024"', "version": '"One"'}),
+    ("xdgP", {"tab_spaces": "1", "style_edition": '"2024"', "max_width": "130"}),
+    ("xdgD", {"tab_spaces": "2", "hard_tabs": "true"}),
+    ("cpfile", {"tab_spaces": "3", "edition": '"2021"', "max_width": "60"}),
+    ("cpdirP", {"tab_spaces": "5", "version": '"Two"'}),
+    ("cpdirD", {"tab_spaces": "6", "style_edition": '"2018"', "brace_style": '"AlwaysNextLine"'}),
+    ("decoy", {"tab_spaces": "1", "max_width": "60", "hard_tabs": "true", "style_edition": '"2024"'}),
     # part B
-    "pP": {"tab_spaces": "2", "max_width": "60"},
-    "pD": {"tab_spaces": "3", "hard_tabs": "true", "edition": '"2024"'},
-    "qP": {"tab_spaces": "5", "brace_style": '"AlwaysNextLine"'},
-    "qD": {"tab_spaces": "6", "style_edition": '"2024"'},
-    "rP": {"tab_spaces": "7", "version": '"Two"', "max_width": "130"},
-    "rD": {"tab_spaces": "8", "max_width": "60", "style_edition": '"2015"'},
-}
-PROBE_KEYS = ["tab_spaces", "hard_tabs", "max_width", "brace_style", "edition", "style_edition", "version"]
+    ("pP", {"tab_spaces": "2", "max_width": "60"}),
+    ("pD", {"tab_spaces": "3", "hard_tabs": "true", "edition": '"2024"'}),
+    ("qP", {"tab_spaces": "5", "brace_style": '"AlwaysNextLine"'}),
+    ("qD", {"tab_spaces": "6", "style_edition": '"2024"'}),
+    ("rP", {"tab_spaces": "1", "version": '"Two"', "max_width": "130"}),
+    ("rD", {"max_width": "60", "style_edition": '"2015"'}),
+]
+SLOTS = {}
+for _i, (_n, _e) in enumerate(_SLOT_EXTRAS):
+    SLOTS[_n] = dict({"blank_lines_upper_bound": str(_i + 2)}, **_e)
+PROBE_KEYS = ["blank_lines_upper_bound", "tab_spaces", "hard_tabs", "max_width", "brace_style", "edition", "style_edition", "version"]
 
 NAMES = {"P": ["rustfmt.toml"], "D": [".rustfmt.toml"], "B": ["rustfmt.toml", ".rustfmt.toml"], "-": []}
 
@@ -305,6 +313,12 @@ def effective(file_keys, cli, se_defaults):
     eff["edition"] = '"2015"'  # the parser edition's default does not depend on the style edition
     eff["style_edition"] = '"%s"' % se
     eff.update(merged)
+    # When style_edition is only inferred, the property fixes the *defaults of the unset options*, not the
+    # text printed for `style_edition` itself: any style edition with the same table of defaults is accepted
+    # there (the subject prints "2015" for an inferred 2018/2021, whose defaults are identical).
+    if "style_edition" not in merged:
+        strip = lambda d: {k: v for k, v in d.items() if k != "style_edition"}
+        eff["_se_accept"] = sorted('"%s"' % s for s in se_defaults if strip(se_defaults[s]) == strip(se_defaults[se]))
     return eff
 
 
@@ -396,6 +410,8 @@ def cmp_cfg(printed, eff, T):
     for k in T["option_order"]:
         if k in WIDTH_OPTS and eff["max_width"] != "100":
             continue
+        if k == "style_edition" and "_se_accept" in eff and printed.get(k) in eff["_se_accept"]:
+            continue
         if printed.get(k) != eff.get(k):
             diffs.append((k, eff.get(k), printed.get(k)))
     return diffs
@@ -433,7 +449,7 @@ def a_run(s, T, verbose=False):
         res["chosen"] = chosen
         opts = cli_argv(s["ov"]) + cp_argv
         nkeys = len(s["ov"].get("config", []))
-        reps = 3 if nkeys >= 2 else 1
+        reps = (3 if T.get("thorough") else 2) if nkeys >= 2 else 1
         base_detail = {
             "spec": s,
             "tree": {k: v for k, v in files.items() if k.endswith(".toml")},
@@ -524,7 +540,7 @@ def level_states(n, mode):
 
 
 CLI_ATOMS = [
-    ("tab_spaces", "18"),
+    ("tab_spaces", "7"),
     ("hard_tabs", "false"),
     ("max_width", "130"),
     ("brace_style", '"AlwaysNextLine"'),
@@ -561,7 +577,7 @@ def override_sets(thorough):
 OV_NONE = {"edition": None, "style_edition": None, "config": []}
 OV_SMALL = [
     OV_NONE,
-    {"edition": None, "style_edition": None, "config": [["tab_spaces", "18"]]},
+    {"edition": None, "style_edition": None, "config": [["tab_spaces", "7"]]},
     {"edition": None, "style_edition": "2024", "config": []},
     {"edition": "2024", "style_edition": None, "config": [["version", '"One"'], ["hard_tabs", "false"]], "form": "comma"},
 ]
@@ -589,20 +605,20 @@ def a_states(thorough):
         for lv in level_states(3, "all" if thorough else "sparse"):
             for home in "-PDB" if thorough else "-B":
                 for xdg in "-PDB" if thorough else "-P":
-                    for ov in OV_SMALL:
+                    for ov in OV_SMALL if thorough else OV_SMALL[:3]:
                         add(lv, home, xdg, cp, "root-abs", ov)
     # A3: every override set over a few layouts
     lay = [
         (["-"] * n, "-", "-", None),
-        (["P"] + ["-"] * (n - 1), "-", "-", None),
         (["B", "D"] + ["-"] * (n - 2), "-", "-", None),
         (["-", "P"] + ["-"] * (n - 2), "B", "-", None),
-        (["-"] * n, "D", "-", None),
-        (["-"] * n, "-", "P", None),
+        (["-"] * n, "D", "P", None),
         (["P"] + ["-"] * (n - 1), "-", "-", "file"),
     ]
     if thorough:
         lay += [
+            (["P"] + ["-"] * (n - 1), "-", "-", None),
+            (["-"] * n, "-", "P", None),
             (["-", "-", "P"] + ["-"] * (n - 3), "-", "-", None),
             (["-", "-", "D"] + ["-"] * (n - 3), "P", "B", None),
             (["-"] * (n - 1) + ["B"], "-", "-", None),
@@ -715,13 +731,13 @@ def b_states(thorough):
     dirstates = "-PDB" if thorough else "-PD"
     ovs = [
         (None, OV_NONE),
-        (None, {"edition": None, "style_edition": None, "config": [["tab_spaces", "18"]]}),
-        (None, {"edition": None, "style_edition": "2024", "config": []}),
+        (None, {"edition": None, "style_edition": None, "config": [["tab_spaces", "7"]]}),
         ("file", OV_NONE),
     ]
     if thorough:
+        ovs.append((None, {"edition": None, "style_edition": "2024", "config": []}))
         ovs.append((None, {"edition": "2024", "style_edition": None, "config": [["max_width", "130"], ["hard_tabs", "false"]], "form": "comma"}))
-        ovs.append(("file", {"edition": None, "style_edition": None, "config": [["tab_spaces", "18"]]}))
+        ovs.append(("file", {"edition": None, "style_edition": None, "config": [["tab_spaces", "7"]]}))
     st = []
     for p in dirstates:
         for q in dirstates:
@@ -729,7 +745,7 @@ def b_states(thorough):
                 for home in ("-", "P") if not thorough else ("-", "P", "B"):
                     for cp, ov in ovs:
                         for order in orders:
-                            if not thorough and cp is not None and len(order) < 2:
+                            if not thorough and (cp is not None or ov != OV_NONE) and len(order) < 3:
                                 continue
                             st.append({"p": p, "q": q, "r": r, "home": home, "cp": cp, "ov": ov, "order": order})
     return st
@@ -853,7 +869,14 @@ def values_for(name, kind, variants, defaults, thorough):
 
 
 def norm_err(err):
-    return "\n".join(l for l in err.splitlines())
+    """stderr as an effect: the distinct lines in order of first appearance (how often a warning is
+    repeated is not an effect of the option)."""
+    seen, out = set(), []
+    for l in err.splitlines():
+        if l not in seen:
+            seen.add(l)
+            out.append(l)
+    return "\n".join(out)
 
 
 def observe_format(root, home, argv_opts):
@@ -865,7 +888,7 @@ def observe_format(root, home, argv_opts):
             if f.endswith(".toml"):
                 continue
             snap[os.path.relpath(os.path.join(d, f), root)] = rd(os.path.join(d, f))
-    return {"rc": rc, "stdout": out, "stderr": err, "files": snap}
+    return {"rc": rc, "stdout": out, "stderr": norm_err(err), "files": snap}
 
 
 def c_case_id(s):
@@ -984,11 +1007,13 @@ ALIASES = {
     "hide_parse_errors": ("show_parse_errors", {"true": "false", "false": "true"}, ["true", "false"]),
     "version": ("style_edition", {'"One"': '"2015"', '"Two"': '"2024"'}, ['"2021"', '"2024"', '"2015"']),
 }
-ALIAS_SRC = (
+ALIAS_SRC_OK = (
     "use a::{b};\nuse a::{c10, c9};\nuse a::d::e;\n"
     "fn g(first_parameter: u32, second_parameter: u32, third_parameter: u32, fourth_parameter: u32, fifth: u32) {}\n"
-    "fn main() { let x = [1 2]; }\n"  # a parse error inside main: reported unless errors are hidden
+    "fn main() { let x = [1, 2]; }\n"
 )
+# a parse error inside main: reported on stderr unless parse errors are hidden
+ALIAS_SRC_BAD = ALIAS_SRC_OK.replace("[1, 2]", "[1 2]")
 
 
 def d_case_id(s):
@@ -1001,11 +1026,11 @@ def strip_deprecation(err):
     return "\n".join(l for l in err.splitlines() if not l.startswith("Warning: the `") and "deprecated" not in l)
 
 
-def d_observe(root, home, fkeys, ckeys, reps):
-    """print-config + formatting of ALIAS_SRC with the given file keys and --config keys."""
+def d_observe(root, home, fkeys, ckeys, reps, src):
+    """print-config + formatting of `src` with the given file keys and --config keys."""
     if os.path.exists(os.path.join(root, "g")):
         shutil.rmtree(os.path.join(root, "g"))
-    files = {"g/main.rs": ALIAS_SRC, "home/keep": ""}
+    files = {"g/main.rs": src, "home/keep": ""}
     if fkeys:
         files["g/rustfmt.toml"] = toml_of(fkeys)
     wtree(root, files)
@@ -1014,7 +1039,7 @@ def d_observe(root, home, fkeys, ckeys, reps):
     for _ in range(reps):
         pc = rf(["--unstable-features"] + cfg + ["--print-config", "current", os.path.join(root, "g/main.rs")], root, home)
         fm = rf(["--unstable-features"] + cfg + ["--emit", "stdout", os.path.join(root, "g/main.rs")], root, home)
-        obs.append({"pc_rc": pc[0], "pc": pc[1], "fmt_rc": fm[0], "fmt_out": fm[1], "fmt_err": strip_deprecation(fm[2]), "argv": cfg})
+        obs.append({"pc_rc": pc[0], "pc": pc[1], "fmt_rc": fm[0], "fmt_out": fm[1], "fmt_err": norm_err(strip_deprecation(fm[2])), "argv": cfg})
     return obs
 
 
@@ -1030,7 +1055,8 @@ def d_run(s, T, verbose=False):
         if splace != "absent":
             (fkeys if splace == "file" else ckeys)[succ] = sval
         reps = 6 if len(ckeys) >= 2 else 1
-        obs = d_observe(root, home, fkeys, ckeys, reps)
+        src = ALIAS_SRC_BAD if alias == "hide_parse_errors" else ALIAS_SRC_OK
+        obs = d_observe(root, home, fkeys, ckeys, reps, src)
         # reference: the same sources with the alias replaced by its documented successor value
         rf_keys, rc_keys = dict(fkeys), dict(ckeys)
         for dct in (rf_keys, rc_keys):
@@ -1038,7 +1064,7 @@ def d_run(s, T, verbose=False):
                 del dct[alias]
                 if splace == "absent":
                     dct[succ] = mapping[aval]
-        ref = d_observe(root, home, rf_keys, rc_keys, 1)[0]
+        ref = d_observe(root, home, rf_keys, rc_keys, 1, src)[0]
         res["inv"] += 2 * reps + 2
         res["traces"] += 2 * reps
         want = sval if splace != "absent" else mapping[aval]
@@ -1124,7 +1150,7 @@ def e_run(s, T, verbose=False):
         if verbose:
             print("file:", repr(f["file"]), "rc", f["rc"], f["err"].strip(), "\n printed:", widths_of(f))
         if f["rc"] != 0:
-            res["agg"].append(("print-config-error", "E widths mw=%s ush=%s: --print-config current fails" % (s["mw"], s["ush"]), detail))
+            res["agg"].append(("print-config-error", "E widths ush=%s: --print-config current fails" % s["ush"], "mw=%s" % s["mw"], detail))
         else:
             w = widths_of(f)
             for k in WIDTH_OPTS:
@@ -1134,45 +1160,56 @@ def e_run(s, T, verbose=False):
                     res["viol"].append(("width-not-printed", dict(detail, option=k, printed=w[k])))
                     continue
                 if v > s["mw"]:
-                    res["agg"].append(
-                        ("derived-width-exceeds-max_width", "E widths mw=%s ush=%s prints %s=%s" % (s["mw"], s["ush"], k, v), dict(detail, printed=w))
-                    )
+                    if k == s["opt"]:
+                        res["viol"].append(("explicit-width-exceeds-max_width", dict(detail, printed=w)))
+                    else:
+                        res["agg"].append(
+                            ("derived-width-exceeds-max_width", "E widths mw=%s ush=%s prints" % (s["mw"], s["ush"]), "%s=%s" % (k, v), dict(detail, printed=w))
+                        )
             if w["max_width"] != str(s["mw"]):
                 res["viol"].append(("max_width-not-applied", dict(detail, printed=w)))
             if s["opt"] and s["mode"] == "below" and w[s["opt"]] != str(s["val"]):
                 res["viol"].append(("explicit-width-not-used", dict(detail, printed=w)))
-        # 2. the same keys through --config, 6 processes (hash order of the keys)
-        obs = []
-        for _ in range(6):
+        # 2. the same keys through --config: 6 processes (the subject applies the keys in hash order).  When
+        #    all six agree with each other but not with the file form, up to 18 more processes decide
+        #    between "deterministically different" and "order dependent".
+        key = lambda o: json.dumps((o["rc"], widths_of(o) if o["rc"] == 0 else None), sort_keys=True)
+        fkey = key(f)
+        obs = [e_pc(root, home, {}, keys) for _ in range(6)]
+        distinct = {key(o) for o in obs}
+        while len(distinct) == 1 and fkey not in distinct and len(obs) < 24:
             obs.append(e_pc(root, home, {}, keys))
-        res["inv"] += 6
-        res["traces"] += 6
-        distinct = sorted({json.dumps((o["rc"], widths_of(o) if o["rc"] == 0 else None), sort_keys=True) for o in obs})
+            distinct.add(key(obs[-1]))
+        res["inv"] += len(obs)
+        res["traces"] += len(obs)
+        distinct = sorted(distinct)
         if verbose:
-            print("--config:", obs[0]["argv"], "6 runs ->", len(distinct), "distinct results")
+            print("--config:", obs[0]["argv"], len(obs), "runs ->", len(distinct), "distinct results; file form gave", fkey)
             for d in distinct:
                 print("   ", d)
-        cdetail = dict(detail, argv=obs[0]["argv"], file_result=widths_of(f) if f["rc"] == 0 else None, cli_results_of_6_processes=[json.loads(d) for d in distinct])
+        cdetail = dict(detail, argv=obs[0]["argv"], file_result=json.loads(fkey), processes=len(obs), distinct_cli_results=[json.loads(d) for d in distinct])
         if len(distinct) > 1:
             res["viol"].append(("nondeterministic-config-order", cdetail))
-        elif f["rc"] == 0 and obs[0]["rc"] == 0 and widths_of(obs[0]) != widths_of(f):
+        elif distinct[0] != fkey:
             res["viol"].append(("file-vs-cli-widths-differ", cdetail))
-        elif f["rc"] != obs[0]["rc"]:
-            res["viol"].append(("file-vs-cli-widths-differ", cdetail))
-        # 3. width option (+ heuristics) in the file, max_width from --config (one key: deterministic)
-        fk = {k: v for k, v in keys.items() if k != "max_width"}
-        fk["max_width"] = "100" if s["mw"] != 100 else "50"
-        m = e_pc(root, home, fk, {"max_width": str(s["mw"])})
-        res["inv"] += 1
-        res["traces"] += 1
-        if verbose:
-            print("mixed: file", repr(m["file"]), "argv", m["argv"], "->", widths_of(m) if m["rc"] == 0 else m["err"])
-        if m["rc"] != f["rc"] or (f["rc"] == 0 and widths_of(m) != widths_of(f)):
-            res["viol"].append(
-                ("cli-max_width-over-file-widths-differs-from-single-file",
-                 dict(detail, mixed_file=m["file"], mixed_argv=m["argv"], mixed_rc=m["rc"], mixed_result=widths_of(m) if m["rc"] == 0 else m["err"],
-                      single_file_result=widths_of(f) if f["rc"] == 0 else None))
-            )
+        # 3. width option (+ heuristics) in the file, max_width from --config (one key: deterministic).
+        #    Only for merged configurations that are valid by Configurations.md (width <= max_width).
+        if s["mode"] != "above":
+            fk = {k: v for k, v in keys.items() if k != "max_width"}
+            fk["max_width"] = "100" if s["mw"] != 100 else "50"
+            m = e_pc(root, home, fk, {"max_width": str(s["mw"])})
+            res["inv"] += 1
+            res["traces"] += 1
+            if verbose:
+                print("mixed: file", repr(m["file"]), "argv", m["argv"], "->", widths_of(m) if m["rc"] == 0 else m["err"])
+            if key(m) != fkey:
+                res["agg"].append(
+                    ("cli-max_width-over-file-width-option-differs-from-single-file",
+                     "E widths file(max_width=%s)+--config max_width=%s ush=%s %s" % (fk["max_width"], s["mw"], s["ush"], s["mode"] or "none-set"),
+                     s["opt"] or "-",
+                     dict(detail, mixed_file=m["file"], mixed_argv=m["argv"], mixed_rc=m["rc"], mixed_result=widths_of(m) if m["rc"] == 0 else m["err"],
+                          single_file_result=json.loads(fkey)))
+                )
     finally:
         shutil.rmtree(root, ignore_errors=True)
     return res
@@ -1210,6 +1247,7 @@ def tables():
         T["se_text"][se] = out
         T["se_defaults"][se] = parse_cfg(out)
     T["option_order"] = list(T["se_defaults"]["2015"].keys())
+    T["thorough"] = (os.environ.get("VERIF_TIER") or (sys.argv[1] if len(sys.argv) > 1 else "")) == "thorough"
     T["se_dependent"] = sorted(
         k for k in T["option_order"] if len({T["se_defaults"][se].get(k) for se in T["se_defaults"]}) > 1
     )
@@ -1318,13 +1356,14 @@ def explore(run):
             else:
                 for what, detail in viol:
                     run.violation(r["id"], what, dict(detail, kind=kind))
-        for what, cid, detail in r.get("agg", []):
-            key = (what, cid)
+        for what, group, member, detail in r.get("agg", []):
+            key = (what, group)
             if key not in agg:
-                agg[key] = [dict(detail, kind=kind), []]
-            agg[key][1].append(r["id"])
-    for (what, cid), (detail, ctx) in agg.items():
-        run.violation(cid, what, dict(detail, also_seen_in=ctx, contexts=len(ctx)))
+                agg[key] = [dict(detail, kind=kind), set(), []]
+            agg[key][1].add(member)
+            agg[key][2].append(r["id"])
+    for (what, group), (detail, members, ctx) in agg.items():
+        run.violation("%s [%s]" % (group, ", ".join(sorted(members))), what, dict(detail, seen_in_cases=ctx[:40], cases=len(ctx)))
 
     default_fixpoint(T, run)
     run.counters["transitions"] = _inv_total[0]
@@ -1336,7 +1375,7 @@ def explore(run):
     run.sample({"case": e_case_id(e[3]), "spec": e[3]}, limit=8)
     # vacuity: every kind of configuration source must have won somewhere, accepted pairs must exist
     need = ["None", "d0P", "d0D", "d1P", "d1D", "d2P", "d2D", "homeP", "homeD", "xdgP", "xdgD", "cpfile", "cpdirP", "cpdirD", "missing"]
-    missing = [k for k in need if chosen_hist.get(k, 0) < 2]
+    missing = [k for k in need if chosen_hist.get(k, 0) < 1]
     if missing or accepted < 100:
         print(f"[C14] vacuous run: sources never chosen {missing}, accepted pairs {accepted}", file=sys.stderr)
         sys.exit(2)
@@ -1381,7 +1420,7 @@ def replay(path):
             if k in det:
                 print(f"{k}: {json.dumps(det[k], indent=1)}")
         r = run_spec(kind, spec, T, verbose=True)
-        allv = [(w, d) for w, d in r["viol"]] + [(w, d) for w, _cid, d in r.get("agg", [])]
+        allv = [(w, d) for w, d in r["viol"]] + [(w + " (" + g + ": " + m + ")", d) for w, g, m, d in r.get("agg", [])]
         if not allv:
             print("RESULT: no violation on replay")
             return 0
